@@ -68,6 +68,11 @@ def toOp (t : Tok) : Option Op :=
   | "rtlet" => some (.rtLeTrim d a) | "rtbet" => some (.rtBeTrim d a)
   | "fill08" | "fill09" | "fillmut" => some (.fill d (parseLimbs (argS t 1)))
   | "rtlimbs" => some (.rtLimbs d a)
+  | "wmul" => some (.wmul d a b) | "smul" => some (.smul d a b)
+  | "wshl" => some (.wshl d a b) | "wshr" => some (.wshr d a b)
+  | "rotl" => some (.rotl d a b) | "rotr" => some (.rotr d a b) | "ashr" => some (.ashr d a b)
+  | "not" => some (.not d a) | "and" => some (.and d a b) | "or" => some (.or d a b) | "xor" => some (.xor d a b)
+  | "setbit" => some (.setbit d a b (argN t 3 == 1)) | "revbits" => some (.revbits d a)
   | _ => none
 
 def ofBE (bs : List Nat) : Nat := bs.foldl (fun a b => a * 256 + b) 0
